@@ -94,6 +94,7 @@ UNIT_FALLBACK = {
     "buildstep": [],
     "buildnode": [],
     "noexts": [],
+    "prune": [("filter::verif::f_remove_censored_3", "remove_censored_exts on 3 Kmer4 entries"), ("filter::verif::f_remove_censored_sharded", "remove_censored_exts_sharded, 2 entries + 3 all_kmers")],
     "msppiece": [("msp::verif::m_msp_sequence_short", "msp_sequence on reads of exactly k = 3, and k - 1, bases")],
 }
 
@@ -300,7 +301,8 @@ PROPS["C02"] = {
 PROPS["C03"] = {
     "title": "Extensions and edges denote exactly the real adjacencies, symmetrically",
     "kani": lambda tier: exts(EXTS_ALL) + kfam(["k_rc", "k_extend_left", "k_extend_right"], tier),
-    "verus": [("graphfn", r"^(DebruijnGraph::|Node::|BaseGraph::)"), ("nodesall", r"^Node::(l_edges|r_edges|edges)$")],
+    "verus": [("graphfn", r"^(DebruijnGraph::|Node::|BaseGraph::)"), ("nodesall", r"^Node::(l_edges|r_edges|edges)$"),
+              ("prune", r"^(pruned_exts|pruned_exts_sharded|lemma_search_table|lemma_search_list)$")],
     "bounded": lambda tier: [("filter::verif::f_remove_censored_3", "3 table entries, Kmer4, both strandedness values"),
                              ("filter::verif::f_remove_censored_sharded", "2 valid entries, 3 shard k-mers, Kmer4")],
     "design_ref": "DESIGN.md §6 C03",
@@ -308,8 +310,9 @@ PROPS["C03"] = {
         "set of resolvable edges == set of observed (K+1)-mers (needs the C05 kernel and C01)",
         "global symmetry u->v => v->u (a property of the constructed graph, not of one call)",
         "max_path / max_path_beam (f32 scores, HashSet, closures) and sequence_of_path",
-        "remove_censored_exts(_sharded): only a bounded stand-in (binary_search_by_key with a closure is outside the Verus subset used here)"],
+        "remove_censored_exts(_sharded): the computation of each entry's new extension byte IS under contract (unit prune, rule R15 statement range: kept exactly when present and the target k-mer is a table key - sharded: or not a k-mer of this shard at all), given the assumed contracts of the two std binary searches on sorted slices; the loop over the entries and the final store `(valid_kmers[idx].1).0 = new_exts` (field assignment through IndexMut) are covered by the bounded stand-in only"],
     "trust": VERUS_TRUST + GRAPH_TRUST + [SEAM_NOTE,
+        "std slice binary searches (binary_search_by_key, binary_search): on a slice sorted as the search requires they answer Ok exactly when an element with that key / value exists (assumed; sortedness is the callers' obligation, token keys_sorted); k-mers are equal exactly when they spell the same bases (axiom_kmer_eq; Kani family k_eq_ord)",
         "graph well-formedness (DebruijnGraph::wf): every node has >= K bases; left_order/right_order map exactly the first/last k-mers of the nodes to their ids"],
     "level_text": "find_link is proved to return Some((id, side, flip)) only for a node whose terminal k-mer on `side` equals the query (its reverse complement when flip), with (dir, side, flip) one of the four consistent shapes, flip only when unstranded and only when no same-strand match exists, and None exactly when no node end matches; find_edges (and the public Node::l_edges / r_edges / edges) returns only resolved links of the node's own extension bases and one for every extension base that resolves; get_valid_exts / fix_exts are proved exact: an extension is kept iff it was present and resolves to a valid (non-censored) node, dropped only if unresolvable or censored, and nothing but the extension vector changes (Verus, unbounded, real bodies incl. the check_node closure).",
     "level_note": "Partial claim (see undecided_clauses). Trusted: Verus/Z3, extractor rules, abstract BoomHashMap/BitSet/SmallVec contracts, the V<->K seam. Table pruning (remove_censored_exts*) is a bounded Kani stand-in only.",
